@@ -282,16 +282,22 @@ int main(int argc, char** argv) {
     switch (c.comp) {
     case SORT:
     case PARTITION:
-    case PARTIAL_SUM: c.iter = (unsigned)rng.pick<unsigned>({IT_VECTOR, IT_VECTOR, IT_VECTOR, IT_POINTER, IT_POINTER, IT_POINTER, IT_DEQUE, IT_DEQUE}); break;
+    case PARTIAL_SUM:
+      c.iter = rng.pick<unsigned>({IT_VECTOR, IT_VECTOR, IT_POINTER, IT_POINTER, IT_DEQUE, IT_DEQUE, IT_CHECKED, IT_CHECKED, IT_CHECKED});
+      break;
     case DESTROY: c.iter = IT_POINTER; break;
     default:
-      c.iter = (unsigned)rng.pick<unsigned>({IT_VECTOR, IT_VECTOR, IT_POINTER, IT_POINTER, IT_DEQUE, IT_LIST, IT_COUNTING, IT_COUNTING});
+      c.iter = rng.pick<unsigned>({IT_VECTOR, IT_VECTOR, IT_POINTER, IT_POINTER, IT_DEQUE, IT_LIST, IT_COUNTING, IT_COUNTING, IT_CHECKED});
       break;
     }
     if (c.comp == ACCUMULATE) {
       c.elem = rng.below(5) == 0 && c.iter != IT_COUNTING ? 2 : 0;
     }
     c.n = pick_size(rng, c.comp, c.iter == IT_LIST ? std::min<size_t>(sizeCap, 20000) : sizeCap);
+    // partial_sum splits into `threads` blocks of ceil(n/threads): empty trailing blocks exist only when
+    // (threads-1)*ceil(n/threads) >= n, i.e. (given the n >= 1024 cut-off) with more than 32 threads and small n
+    if (c.comp == PARTIAL_SUM && c.threads > 32 && rng.below(2))
+      c.n = std::min(sizeCap, (size_t)rng.range(1024, (int64_t)c.threads * (c.threads - 1)));
     c.keyPat    = (unsigned)rng.below(NKEYPAT);
     // One dominating key makes ParallelSTL::sort quadratic (the pivot is the minimum of the remaining range
     // again and again and only a short leading run is stripped per O(n) pass: 1.2e10 comparisons for n = 1e5
@@ -327,6 +333,13 @@ int main(int argc, char** argv) {
       c.delay.ns     = rng.pick<unsigned>({300, 1000, 3000, 10000});
       c.delay.budget = (unsigned)(budgetNs / c.delay.ns);
     }
+    // slow operator+ of the user-defined iterator for chosen threads (decides who claims which block)
+    if (c.iter == IT_CHECKED && rng.below(4) != 0) {
+      c.iterDelay.ns     = rng.pick<unsigned>({1, 2000, 20000, 100000});
+      c.iterDelay.budget = rng.pick<unsigned>({1, 1, 2, 3, 8});
+      c.iterDelay.who    = (unsigned)rng.below(4);
+      c.iterDelay.a      = (unsigned)rng.below(c.threads);
+    }
     unsigned pointProb = rng.pick<unsigned>({0, 0, 256, 2048});
     unsigned spinProb  = rng.pick<unsigned>({0, 0, 512, 8192});
     uint64_t noiseSeed = rng.next();
@@ -344,7 +357,9 @@ int main(int argc, char** argv) {
     default: p.kv("keys", KEYPAT_NAME[c.keyPat]).kv("op", c.opKind); break;
     }
     p.kv("variant", c.variant).kv("delay_kind", c.delay.kind).kv("delay_a", c.delay.a).kv("delay_ns", c.delay.ns)
-        .kv("delay_budget", c.delay.budget).kv("pointProb", pointProb).kv("spinProb", spinProb);
+        .kv("delay_budget", c.delay.budget).kv("iter_delay_ns", c.iterDelay.ns).kv("iter_delay_budget", c.iterDelay.budget)
+        .kv("iter_delay_who", c.iterDelay.who).kv("iter_delay_a", c.iterDelay.a).kv("pointProb", pointProb)
+        .kv("spinProb", spinProb);
     H.begin(k, p.str());
 
     galois::setActiveThreads(c.threads);
@@ -389,7 +404,7 @@ int main(int argc, char** argv) {
                       "|t" + std::to_string(c.threads) + "|s" + std::to_string(sockets) + "|k" +
                       std::to_string(c.comp == SORT || c.comp >= ACCUMULATE ? c.keyPat : c.boolPat) + "|o" +
                       std::to_string(c.comp == SORT ? c.cmp.kind : (c.comp >= ACCUMULATE ? c.opKind : c.pred.kind)) + "|d" +
-                      std::to_string(c.delay.kind) + "|" + o.cls + "|u" + std::to_string(used);
+                      std::to_string(c.delay.kind) + (c.iterDelay.ns ? "i" + std::to_string(c.iterDelay.who) : "") + "|" + o.cls + "|u" + std::to_string(used);
     J obs;
     obs.kv("elements", c.n).kv("callback_calls", g_mon.totalCalls()).kv("delays_injected", g_mon.totalDelays())
         .kv("parallel_path_cases", (int)parallelPath).kv("multi_thread_cases", (int)(used >= 2))
